@@ -54,6 +54,9 @@ class Ctx:
         self.rule = ""
         self.exhaustive = False
         self.extra = {}
+        self.set_known(pid)
+
+    def set_known(self, pid):
         kf = load_known()
         self.known = {f["name"]: f for f in kf.get("findings", []) if pid in f.get("properties", [f.get("property")])}
         self.all_known_names = {f["name"] for f in kf.get("findings", [])}
